@@ -125,6 +125,7 @@ pub struct Rpc {
     pub reply_tx: Option<oneshot::Sender<Result<(), HErr>>>,
     pub result: Option<Result<(), HErr>>,
     pub created_seq: u64,
+    pub replied_seq: u64,
 }
 
 #[derive(Clone, Debug)]
@@ -227,6 +228,7 @@ impl HClient {
                 reply_tx: Some(tx),
                 result: None,
                 created_seq: seq,
+                replied_seq: 0,
             });
             rx
         };
@@ -493,9 +495,11 @@ impl Driver {
     fn reply_idx(&mut self, idx: usize, forced: Option<Result<(), HErr>>) {
         let mut h = self.w.hub.inner.lock().unwrap();
         h.seq += 1;
+        let seq = h.seq;
         let r = &mut h.rpcs[idx];
         let res = forced.or_else(|| r.result.clone()).unwrap_or(Err(HErr::Shutdown));
         r.state = RpcState::Replied;
+        r.replied_seq = seq;
         r.payload = None;
         if let Some(tx) = r.reply_tx.take() {
             let _ = tx.send(res);
@@ -790,6 +794,8 @@ pub struct Snapshot {
     pub seq: u64,
     pub canonical: u128,
     pub actors: Vec<(u8, u8, u64, Option<u64>)>,
+    /// (pol, party, seq of the first and of the last MPC-message activity involving the party)
+    pub msg_spans: Vec<(u8, u8, u64, u64)>,
 }
 
 impl Driver {
@@ -817,6 +823,19 @@ impl Driver {
             seq: h.seq,
             canonical: canonical(&self.effective, self.w.n()),
             actors: h.actors.clone(),
+            msg_spans: {
+                let mut m: HashMap<(u8, u8), (u64, u64)> = HashMap::new();
+                for r in h.rpcs.iter().filter(|r| r.key.kind == Kind::Msg) {
+                    for p in [r.key.from, r.key.to] {
+                        let e = m.entry((r.key.pol, p)).or_insert((u64::MAX, 0));
+                        e.0 = e.0.min(r.created_seq);
+                        e.1 = e.1.max(r.created_seq).max(r.replied_seq);
+                    }
+                }
+                let mut v: Vec<_> = m.into_iter().map(|((a, b), (c, d))| (a, b, c, d)).collect();
+                v.sort();
+                v
+            },
         };
         drop(h);
         let mut s = s;
